@@ -86,6 +86,8 @@ func c03WindowTable(c *Ctx, r *Report) {
 						return vs[0] > vs[1], true
 					case "(time.Time).Equal":
 						return vs[0] == vs[1], true
+					case "(time.Time).Compare":
+						return cmp3(vs[0], vs[1]), true
 					}
 					return nil, false
 				}
@@ -233,4 +235,15 @@ func c03Dates(c *Ctx, r *Report) {
 		}
 	}
 	r.Extra["distinct_window_instants"] = len(distinct)
+}
+
+// cmp3: time.Time.Compare's result on abstract instants.
+func cmp3(a, b int64) int64 {
+	switch {
+	case a < b:
+		return -1
+	case a > b:
+		return 1
+	}
+	return 0
 }
